@@ -92,6 +92,8 @@ def setup_repo(chk, xvc, name):
     sb.write('a.txt', b'a v1\n'); sb.write('d/b.bin', b'\x00b v1'); sb.write('c.txt', b'c v1\n'); sb.write('dup.txt', b'c v1\n')
     sb.x('file', 'track', '--no-parallel', 'a.txt', 'd/b.bin')
     sb.x('file', 'track', '--no-parallel', '--recheck-method', 'symlink', 'c.txt', 'dup.txt')
+    sb.write('u.txt', b'u unique, only in the cache\n')       # a link whose object nothing else refers to
+    sb.x('file', 'track', '--no-parallel', '--recheck-method', 'symlink', 'u.txt')
     sb.write('a.txt', b'a v2 edited\n')
     sb.x('file', 'carry-in', '--no-parallel', 'a.txt')
     sb.write('new.txt', b'brand new\n'); sb.write('a.txt', b'a v3 uncommitted\n')
@@ -105,6 +107,8 @@ COMMANDS = [
     ('carry-in', ['file', 'carry-in', '--no-parallel', 'a.txt'], ['a.txt']),
     ('recheck-method', ['file', 'recheck', '--no-parallel', '--recheck-method', 'hardlink', 'd/b.bin'], ['d/b.bin']),
     ('track-hardlink', ['file', 'track', '--no-parallel', '--recheck-method', 'hardlink', 'new.txt'], ['new.txt']),
+    ('untrack-unshared', ['file', 'untrack', 'u.txt'], ['u.txt']),
+    ('recheck-copy', ['file', 'recheck', '--no-parallel', '--recheck-method', 'copy', 'u.txt'], ['u.txt']),
     ('copy', ['file', 'copy', 'd/b.bin', 'd/b2.bin'], ['d/b.bin', 'd/b2.bin']),
     ('move', ['file', 'move', 'd/b.bin', 'e/moved.bin'], ['e/moved.bin']),
     ('move-symlink', ['file', 'move', '--recheck-method', 'symlink', 'd/b.bin', 'e/moved.bin'], ['e/moved.bin']),
@@ -153,12 +157,16 @@ def clone(sb, name):
 def run_one(chk, xvc, base, cname, argv, targets, k, trace_ref, table):
     """kill before the k-th mutating syscall of the worker thread; returns list of (msg, sig)"""
     fails = []
-    sb = clone(base, f'{cname}-k{k}')
+    # k = (syscall name, j): kill at the j-th invocation of that system call in whichever thread gets there first.
+    # (strace keeps one `when=` counter per system call and per thread: an expression over a SET of calls fires at the
+    # j-th call of whichever member reaches ITS j-th invocation first, so kill points are enumerated per call name.)
+    sc_name, sc_j = k
+    sb = clone(base, f'{cname}-{sc_name}{sc_j}')
     arg2 = prepare(sb, cname) or argv
     inv0, o0 = inventory(sb)
     objs0 = {rel: ob['bytes'] for rel, ob in o0.cache.items()}
     tf = os.path.join(sb.base, 'killed.trace')
-    cmd = ['strace', '-f', '-qq', '-o', tf, '-e', f'trace={SYSCALLS}', '-e', f'inject={INJECT}:signal=KILL:when={k}',
+    cmd = ['strace', '-f', '-qq', '-o', tf, '-e', f'trace={SYSCALLS}', '-e', f'inject={sc_name}:signal=KILL:when={sc_j}',
            xvc, '--skip-git'] + arg2
     rc_, out, err = sb.run(cmd, timeout=120)
     done = [x for l in parse_trace(tf, sb.root).values() for x in l] if os.path.exists(tf) else []
@@ -180,14 +188,14 @@ def run_one(chk, xvc, base, cname, argv, targets, k, trace_ref, table):
              'cache_out': frac(lambda x: x[0].startswith('unlink') and x[1] == 'cache-object'),
              'workspace': frac(lambda x: x[1] == 'workspace')}
     chk.count(f'killed-at:{at[0]}:{at[1]}')
-    where = f"{cname} killed at injection point {k} (before {at[0]} on {at[1]}; done: {phase})"
+    where = f"{cname} killed at call {sc_name}#{sc_j} (before {at[0]} on {at[1]}; done: {phase})"
     # (a) later commands load the repository
     r1, o1, e1 = sb.x('--skip-git', 'file', 'list')
     if r1 != 0:
         fails.append((f'{where}: `xvc file list` afterwards exits {r1}: {e1[-200:]}', {'kind': 'repository-does-not-load', 'at': f'{at[0]}:{at[1]}'}))
     inv1, ob1 = inventory(sb)
     # (b) objects of earlier versions intact  (remove / untrack delete what they are asked to delete)
-    if cname not in ('remove', 'untrack'):
+    if cname not in ('remove', 'untrack', 'untrack-unshared'):
         for rel, b in objs0.items():
             n = ob1.cache.get(rel)
             if n is None or n['bytes'] != b:
@@ -201,7 +209,7 @@ def run_one(chk, xvc, base, cname, argv, targets, k, trace_ref, table):
     for b in lost:
         fails.append((f'{where}: the {len(b)} bytes {b[:20]!r} that were in the workspace are neither in the workspace nor in the cache', {'kind': 'bytes-lost', 'at': f'{at[0]}:{at[1]}'}))
     # (d) no partial object
-    for msg, sig in rc.o1_content_addressed([{'i': k, 'cmd': {'op': cname, 'targets': targets}, 'rc': rc_, 'pre': None, 'post': ob1}], {}, []):
+    for msg, sig in rc.o1_content_addressed([{'i': sc_j, 'cmd': {'op': cname, 'targets': targets}, 'rc': rc_, 'pre': None, 'post': ob1}], {}, []):
         if sig['kind'] in ('address-mismatch', 'object-is-symlink'):
             fails.append((f'{where}: ' + msg, dict(sig, at=f'{at[0]}:{at[1]}')))
     # (e) re-run + recheck converges to the uninterrupted twin
@@ -210,6 +218,16 @@ def run_one(chk, xvc, base, cname, argv, targets, k, trace_ref, table):
         r3, _, e3 = sb.x('--skip-git', 'file', 'recheck')
         got = canon(Obs(sb), table)
         fails.append(('__state__', got, where, at, (r2, e2[-200:]), phase))
+        # (f) the re-run and the recheck destroy nothing either: a partial file left by the killed run must not be
+        # taken for the user's file while the only complete copy is deleted
+        inv2, _ = inventory(sb)
+        lost2 = [b for b in o0ws if b not in inv2 and b not in lost]
+        if cname in ('remove',): lost2 = []
+        if cname == 'recheck-force':
+            lost2 = [b for b in lost2 if b != b'a v3 uncommitted\n']
+        for b in lost2:
+            fails.append((f'{where}: after re-running the command (rc={r2}) and `xvc file recheck` the {len(b)} bytes {b[:20]!r} that were in the '
+                          f'workspace before the killed command are neither in the workspace nor in the cache', {'kind': 'bytes-lost-after-rerun', 'cmd': cname}))
     sb.cleanup()
     return fails
 
@@ -224,7 +242,7 @@ def run(chk):
                         'the local storage used by `bring` is not modified by the crash (read side only)']
     base = setup_repo(chk, xvc, 'base')
     table = Table()
-    names = [c for c in COMMANDS][:4] if quick else COMMANDS
+    names = [c for c in COMMANDS][:6] if quick else COMMANDS
     total = 0
     for cname, argv, targets in names:
         # reference run: trace + uninterrupted twin
@@ -237,13 +255,19 @@ def run(chk):
         # per-thread sequences of matching calls; the worker thread is the one with the most repository mutations
         per = parse_trace(tf, ref.root)
         worker = [x for l in per.values() for x in l]          # all mutating calls of the reference run
+        # kill points: for every injectable system call name, every invocation index up to the largest count any
+        # thread of the reference run reached (+1: a run that makes one call more than the reference)
         raw = {}
         for line in open(tf, errors='replace'):
             m = re.match(r'(\d+)\s+(\w+)\(', line)
-            if m and m.group(2) in INJECT.split(','): raw[m.group(1)] = raw.get(m.group(1), 0) + 1
-        n = max(raw.values(), default=0) + 1      # `when=k` counts every call of the set per thread (stdout writes included)
+            if m and m.group(2) in INJECT.split(','):
+                raw[(m.group(1), m.group(2))] = raw.get((m.group(1), m.group(2)), 0) + 1
+        per_call = {}
+        for (pid, sc), cnt in raw.items():
+            per_call[sc] = max(per_call.get(sc, 0), cnt)
         ref.cleanup()
-        ks = list(range(1, n + 1))
+        ks = [(sc, j) for sc in sorted(per_call) for j in range(1, per_call[sc] + 1)]
+        n = len(ks)
         with ThreadPoolExecutor(max_workers=12) as ex:
             results = list(ex.map(lambda k: run_one(chk, xvc, base, cname, argv, targets, k, worker, table), ks))
         st = chk.tie['streams'].setdefault(cname, {'mutating_calls_of_worker_thread': n, 'kill_points': 0, 'converged': 0, 'diverged': 0})
@@ -251,7 +275,7 @@ def run(chk):
             total += 1
             chk.evaluations += 1
             st['kill_points'] += 1
-            chk.nontrivial.add(f'{cname}:{k}')
+            chk.nontrivial.add(f'{cname}:{k[0]}#{k[1]}')
             for f in fails:
                 if f[0] == '__state__':
                     _, got, where, at, rerun, phase = f
@@ -262,16 +286,19 @@ def run(chk):
                         diff = {k2: (got[k2], twin[k2]) for k2 in got if got[k2] != twin[k2]}
                         short = json.dumps(diff, default=lambda b: b.decode('latin1') if isinstance(b, bytes) else str(b))[:500]
                         chk.oracle_failure(f'{where}: re-running the command and `xvc file recheck` does not reach the uninterrupted state (rerun rc={rerun[0]} {rerun[1]}): {short}',
-                                           {'command': ' '.join(argv or arg2), 'kill_before_call': k, 'at': at}, None,
-                                           signature=dict(phase, kind='rerun-diverges', cmd=cname.split('-')[0] if cname.startswith(('track', 'recheck', 'move')) else cname))
+                                           {'command': ' '.join(argv or arg2), 'kill_before_call': f'{k[0]}#{k[1]}', 'at': at}, None,
+                                           signature=dict(phase, kind='rerun-diverges', rerun_rc=('ok' if rerun[0] == 0 else 'error'), cmd=cname.split('-')[0] if cname.startswith(('track', 'recheck', 'move', 'untrack')) else cname))
                 else:
                     msg, sig = f
-                    chk.oracle_failure(msg, {'command': ' '.join(argv or arg2), 'kill_before_call': k}, None, signature=sig)
+                    chk.oracle_failure(msg, {'command': ' '.join(argv or arg2), 'kill_before_call': f'{k[0]}#{k[1]}'}, None, signature=sig)
         if len(chk.samples) < 6:
             chk.samples.append({'command': 'xvc --skip-git ' + ' '.join(arg2), 'worker_thread_mutating_calls': [f'{a}:{b}' for a, b in worker][:60]})
     base.cleanup()
     chk.extra['rule'] = (f'{len(names)} state-changing commands on a prepared repository (3 tracked files with history, a symlinked duplicate pair, an uncommitted edit, a local storage); '
-                         'each command is killed just before EVERY file-system mutating system call of its worker thread (one process per kill point), then the five oracles are evaluated; '
+                         'each command is killed (one process per kill point) at the j-th invocation of system call s, for every mutating call name s other than the opens and every j up to the '
+                         'largest count a thread of the reference run reached (strace keeps one injection counter per call name and thread), i.e. just before every mutating call of the '
+                         'thread that gets there first; then the six oracles are evaluated (loads, old versions intact, workspace bytes survive, no partial object, re-run + recheck '
+                         'converges to the uninterrupted twin, the re-run destroys nothing either); '
                          'a case is one (command, kill point) pair; all are distinct and non-trivial')
     chk.extra['exhaustive'] = True
     chk.extra['exhaustive_part'] = 'all kill points of the listed commands on the prepared repository'
